@@ -248,7 +248,7 @@ class APINoiseFrameHelper(APIFrameHelper):
         server_name_i = server_hello.find(b"\0", 1)
         if server_name_i != -1:
             # server name found, this extension was added in 2022.2
-            server_name = server_hello[1:server_name_i].decode()
+            server_name = server_hello[1:server_name_i].decode(errors="replace")
             self._server_name = server_name
 
             if self._expected_name is not None and self._expected_name != server_name:
@@ -295,7 +295,7 @@ class APINoiseFrameHelper(APIFrameHelper):
 
     def _error_on_incorrect_preamble(self, msg: bytes) -> None:
         """Handle an incorrect preamble."""
-        explanation = msg[1:].decode()
+        explanation = msg[1:].decode(errors="replace")
         if explanation != "Handshake MAC failure":
             exc = HandshakeAPIError(
                 f"{self._log_name}: Handshake failure: {explanation}"
